@@ -677,3 +677,104 @@ func runC17Narrow(c c17SliceCase) error {
 func init() {
 	registerReplay("c17narrow", func(c c17SliceCase) error { return runC17Narrow(c) })
 }
+
+// Columns declared "int" (other writers; hand-written schemas) read into 32-bit and
+// 64-bit Go fields: a varint that does not fit the 32-bit destination is an error,
+// whatever it would be after dropping its upper bits; a 64-bit destination gets the
+// value the varint spells, or an error — never another value.
+type c17IntCols struct {
+	C []int32 `json:"c"`
+	D int32   `json:"d"`
+	E int64   `json:"e"`
+	F int     `json:"f"`
+	G int16   `json:"g"`
+}
+
+const c17IntColsSchema = `{"type":"record","name":"ic","fields":[{"name":"c","type":{"type":"array","items":"int"}},{"name":"d","type":"int"},{"name":"e","type":"int"},{"name":"f","type":{"type":"int"}},{"name":"g","type":"int"}]}`
+
+func runC17IntCols(vals []int64) error {
+	lib, err := avro.SchemaFromString(c17IntColsSchema)
+	if err != nil {
+		return fmt.Errorf("VERIF-INCONCLUSIVE harness: %v", err)
+	}
+	codec, err := lib.Codec(c17IntCols{})
+	if err != nil {
+		return fmt.Errorf("Schema.Codec: %v", err)
+	}
+	for _, v := range vals {
+		for pos := 0; pos < 5; pos++ {
+			// every column holds 7 except the one at pos
+			col := func(i int) int64 {
+				if i == pos {
+					return v
+				}
+				return 7
+			}
+			body := ref.AppendLong(nil, 2)
+			body = ref.AppendLong(ref.AppendLong(body, col(0)), 7)
+			body = ref.AppendLong(body, 0)
+			for i := 1; i < 5; i++ {
+				body = ref.AppendLong(body, col(i))
+			}
+			var got c17IntCols
+			rb := avro.NewReadBuf(body)
+			err := codec.Read(rb, reflect.ValueOf(&got).UnsafePointer())
+			fits := [5]bool{v >= math.MinInt32 && v <= math.MaxInt32, v >= math.MinInt32 && v <= math.MaxInt32, true, true, v >= math.MinInt16 && v <= math.MaxInt16}[pos]
+			if !fits {
+				if err == nil {
+					return fmt.Errorf("an \"int\" column holding %d read into the narrower field at position %d (items of c []int32, d int32, e int64, f int, g int16) without an error: %+v", v, pos, got)
+				}
+				continue
+			}
+			if err != nil {
+				if v >= math.MinInt32 && v <= math.MaxInt32 {
+					return fmt.Errorf("an \"int\" column holding %d (position %d) is refused: %v", v, pos, err)
+				}
+				continue // beyond the schema's own range: refusing it is as good as delivering it
+			}
+			have := [5]int64{0, int64(got.D), got.E, int64(got.F), int64(got.G)}[pos]
+			if pos == 0 {
+				have = int64(got.C[0])
+			}
+			if have != v || rb.Len() != 0 {
+				return fmt.Errorf("an \"int\" column holding %d (position %d) was read as %d with %d bytes left over", v, pos, have, rb.Len())
+			}
+		}
+	}
+	return nil
+}
+
+func TestC17IntCols(t *testing.T) {
+	col := stats.New("C17")
+	col.Rule = c17Rule
+	defer col.Flush()
+	var vals []int64
+	for _, b := range boundaryInts() {
+		vals = append(vals, b)
+	}
+	for k := uint(28); k <= 36; k++ {
+		for _, d := range []int64{-9, -1, 0, 1, 5} {
+			vals = append(vals, int64(1)<<k+d, -(int64(1)<<k)+d)
+		}
+	}
+	err := protect(func() error { return runC17IntCols(vals) })
+	col.Bulk(int64(len(vals) * 5))
+	col.AddDistinct(int64(len(vals)))
+	col.Label("int_columns")
+	if err != nil {
+		failCase(t, "C17", "c17intcols", struct{ N int }{len(vals)}, err)
+	}
+}
+
+func init() {
+	registerReplay("c17intcols", func(struct{ N int }) error {
+		var vals []int64
+		vals = append(vals, boundaryInts()...)
+		for k := uint(28); k <= 36; k++ {
+			for _, d := range []int64{-9, -1, 0, 1, 5} {
+				vals = append(vals, int64(1)<<k+d, -(int64(1)<<k)+d)
+			}
+		}
+		return runC17IntCols(vals)
+	})
+}
